@@ -18,3 +18,7 @@ cargo build --offline --bins 2>&1 | tail -3
 cd "$V/harness-logalways"
 cp /repo/Cargo.lock Cargo.lock
 cargo build --offline --bins 2>&1 | tail -3
+# fifth workspace: the level probe, rebuilt by C10 once per max_level feature configuration (compile-time stage)
+cd "$V/harness-levels"
+cp /repo/Cargo.lock Cargo.lock
+cargo build --offline --bins 2>&1 | tail -3
